@@ -1,13 +1,93 @@
-(* Ltcp — layers/tcp.go.  Property theorems only. *)
-From GP Require Import Base LtcpModel.
+(* Ltcp — layers/tcp.go (TCP header, generic options, all MPTCP option subtypes, TCPOption.String,
+   SerializeTo, checksum).  Property theorems only; each is closed by a lemma of Proofs/LtcpProofs.v.
+   decode_into / render_panics / serialize model the repaired tree (three fix: commits),
+   the *_orig definitions the unchanged tree. *)
+From GP Require Import Base LtcpModel LtcpProofs.
 Open Scope Z_scope.
 
 (* the 20-byte header 04d2 0050 00000001 00000002 <off>0 10 0064 0000 0000 with data offset [off] *)
 Definition hdr (off : Z) (opts : list Z) : list Z :=
   [4;210;0;80;0;0;0;1;0;0;0;2;off*16;16;0;100;0;0;0;0] ++ opts.
 
-(* unchanged tree: kind 30 as the last option byte -> index out of range *)
+(* ---------------------------------------------------------------- C19 *)
+(* DecodeFromBytes never panics: for every receiver state, every byte string (any list of
+   integers, even out-of-range ones) and every content of the spare capacity behind it.
+   Running out of loop fuel is a Panic outcome in the model, so termination is included. *)
+Theorem C19_tcp_no_panic : forall old data extra s, snd (decode_into old data extra) <> Panic s.
+Proof. intros old data extra. apply np_not_panic. apply decode_np. Qed.
+Print Assumptions C19_tcp_no_panic.
+
+(* non-vacuity: a DSS option with all fields (28 bytes) is parsed to the end, and its 27-byte
+   prefix is rejected with an error and the truncation flag *)
+Example C19_tcp_nonvacuous :
+  snd (decode_into tcp0 (hdr 12 ([30;28;32;31] ++ repeat 7 24)) []) = Ok tt /\
+  (let r := decode_into tcp0 (hdr 12 ([1;30;28;32;31] ++ repeat 7 23)) [] in
+   snd r = Err 22 /\ snd (fst r) = true).
+Proof. vm_compute. repeat split. Qed.
+
+(* unchanged tree: kind 30 as the last option byte -> index out of range; MP_FAIL with length 12
+   and 4 bytes present -> slice bounds out of range; unknown subtype with length 9 > 4 remaining *)
 Theorem C19_tcp_orig_refuted :
-  exists data, snd (decode_into_orig tcp0 data []) = Panic 100.
-Proof. exists (hdr 6 [1;1;1;30]). vm_compute. reflexivity. Qed.
+  snd (decode_into_orig tcp0 (hdr 6 [1;1;1;30]) []) = Panic 100 /\
+  snd (decode_into_orig tcp0 (hdr 6 [30;12;96;0]) []) = Panic 160 /\
+  snd (decode_into_orig tcp0 (hdr 6 [30;9;240;0]) []) = Panic 199.
+Proof. vm_compute. repeat split. Qed.
 Print Assumptions C19_tcp_orig_refuted.
+
+(* unchanged tree: with payload behind the options the fixed-offset slices silently read the
+   payload (cap, not len) before the final reslice panics *)
+Theorem C19_tcp_orig_overread_refuted :
+  snd (decode_into_orig tcp0 (hdr 6 [30;12;112;0] ++ [80;65;89;76;79;65;68;80;65;89]) []) = Panic 199.
+Proof. vm_compute. reflexivity. Qed.
+
+(* ---------------------------------------------------------------- C05 *)
+(* Decoding into a reused object: outcome and truncation flag never depend on the previous
+   state, and whenever the decode does not fail in the header (Err 1: shorter than 20 bytes,
+   Err 2: data offset < 5 — "a returned error leaves the layer in an unknown state",
+   parser.go:19-25) every field, Contents and Payload equal those of a fresh object. *)
+Theorem C05_tcp_fresh : forall old data extra,
+  snd (decode_into old data extra) = snd (decode_into tcp0 data extra) /\
+  snd (fst (decode_into old data extra)) = snd (fst (decode_into tcp0 data extra)) /\
+  (snd (decode_into old data extra) = Ok tt -> decode_into old data extra = decode_into tcp0 data extra) /\
+  ((forall c, snd (decode_into old data extra) <> Err c \/ (c <> 1 /\ c <> 2)) ->
+     decode_into old data extra = decode_into tcp0 data extra).
+Proof.
+  intros old data extra. destruct (decode_outcome_fresh old data extra) as [H1 H2].
+  repeat split; auto using decode_fresh_ok, decode_fresh.
+Qed.
+Print Assumptions C05_tcp_fresh.
+
+Definition with_mp : tcp := fst (fst (decode_into tcp0 (hdr 6 [30;3;80;0]) [])).
+Example C05_tcp_nonvacuous :
+  t_mp with_mp = true /\ t_opts with_mp <> [] /\
+  snd (decode_into with_mp (hdr 5 []) []) = Ok tt /\
+  t_mp (fst (fst (decode_into with_mp (hdr 5 []) []))) = false.
+Proof. vm_compute. repeat split. discriminate. Qed.
+
+(* unchanged tree: Multipath of the first packet survives into the second *)
+Theorem C05_tcp_orig_refuted :
+  let t1 := fst (fst (decode_into_orig tcp0 (hdr 6 [30;3;80;0]) [])) in
+  snd (decode_into_orig t1 (hdr 5 []) []) = Ok tt /\
+  t_mp (fst (fst (decode_into_orig t1 (hdr 5 []) []))) = true /\
+  t_mp (fst (fst (decode_into_orig tcp0 (hdr 5 []) []))) = false.
+Proof. vm_compute. repeat split. Qed.
+Print Assumptions C05_tcp_orig_refuted.
+
+(* ---------------------------------------------------------------- C01 *)
+(* LayerString / LayerDump / every TCPOption.String on any layer value (in particular on what a
+   failed decode leaves behind): no nil dereference.  (LayerGoString and TransportFlow have no
+   panic condition; see the comment at render_gen.) *)
+Theorem C01_tcp_render_total : forall t, render_panics t = (false, false).
+Proof. exact render_total. Qed.
+Print Assumptions C01_tcp_render_total.
+
+(* unchanged tree: MP_CAPABLE with length 5 is a decode error that leaves a half-built option, and
+   String() on it dereferences nil; the same with the repaired decoder and the unchanged String
+   (the nil guards are needed independently of the length checks) *)
+Theorem C01_tcp_orig_refuted :
+  (let r := decode_into_orig tcp0 (hdr 6 [30;5;0;0]) [] in
+   snd r = Err 10 /\ render_panics_orig (fst (fst r)) = (true, true)) /\
+  (let r := decode_into tcp0 (hdr 7 [30;5;0;0;0;1;1;1]) [] in
+   snd r = Err 10 /\ render_panics_orig (fst (fst r)) = (true, true)).
+Proof. vm_compute. repeat split. Qed.
+Print Assumptions C01_tcp_orig_refuted.
